@@ -7,16 +7,11 @@ The negations are proved here with concrete witnesses that the check replays on 
 any OTHER disagreement between key order and `compare` is reported as a violation.
 `keyOf` = the byte-level model of `convert_to_comparable` on the document's encoding.
 -/
-import JsonbModel.Functions.Order
-import JsonbModel.Spec.Order
+import JsonbModel.KeyOfDef
+import JsonbModel.Proofs.KeyOrder
 
 namespace Jsonb.Props
 open Jsonb JV
-
-def keyOf (v : JV) : Bytes :=
-  match Fn.convertToComparable (encodeSpec v) [] with
-  | .ok k => k
-  | _ => []
 
 /-- (a) raw string bytes collide with the depth/level markers: `["a", null]` < `["a\u0001"]` by
 `compare`, but its key sorts AFTER — the key is not an order embedding -/
@@ -38,6 +33,34 @@ theorem C14_not_injective_big_integers :
 theorem C14_signed_zero :
     Spec.cmpJV (num (.float 0x8000000000000000)) (num (.uint 0)) = .eq ∧
     lexCmp (keyOf (num (.float 0x8000000000000000))) (keyOf (num (.uint 0))) = .lt := by decide +kernel
+
+/-- **the positive theorem on the restricted domain `D`** (`Spec.inD`: every string and key byte
+≥ 0x20, nesting depth < 32, every number key-exact: integers exactly representable as a double,
+floats other than -0.0): the bytewise order of the keys IS `compare`, and keys are equal
+exactly for equal documents -/
+theorem C14_embedding_partial (a b : JV) (ga : goodTop a = true) (gb : goodTop b = true)
+    (ha : Spec.inD a = true) (hb : Spec.inD b = true) :
+    Fn.compareDocs (encodeSpec a) (encodeSpec b) = .ok (lexCmp (keyOf a) (keyOf b)) ∧
+    lexCmp (keyOf a) (keyOf b) = Spec.cmpJV a b := C14_on_D a b ga gb ha hb
+theorem C14_key_eq_iff_partial (a b : JV) (ga : goodTop a = true) (gb : goodTop b = true)
+    (ha : Spec.inD a = true) (hb : Spec.inD b = true) :
+    keyOf a = keyOf b ↔ Fn.compareDocs (encodeSpec a) (encodeSpec b) = .ok .eq :=
+  C14_key_eq_iff a b ga gb ha hb
+
+/-- the byte walker writes the tree-level key into any prior buffer (frame property, C17) -/
+theorem C14_key_refines (v : JV) (hg : goodTop v = true) (hd : Spec.cdepth v ≤ 255) (buf : Bytes) :
+    Fn.convertToComparable (encodeSpec v) buf = .ok (buf ++ Spec.keyOf 0 v) :=
+  Fn.convertToComparable_refines v hg hd buf
+
+/-- defect class (a) is "string byte ≤ the depth byte that follows", not just control bytes:
+beyond nesting depth 32 printable bytes collide too (why `D` bounds the depth) -/
+theorem C14_not_embedding_deep :
+    Spec.cmpJV (nestArr 32 (arr [str [0x61], null])) (nestArr 32 (arr [str [0x61, 0x21]])) = .lt ∧
+    lexCmp (keyOf (nestArr 32 (arr [str [0x61], null]))) (keyOf (nestArr 32 (arr [str [0x61, 0x21]]))) = .gt :=
+  ⟨key_not_embedding_deep.1, key_not_embedding_deep.2.2⟩
+
+example : Spec.inD (arr [obj [([0x6B], num (.int (-9007199254740992)))], str [0xC3, 0xA9], num (.float 0x7FF8000000000001)]) = true := by
+  decide +kernel
 
 /-- sanity: on an ordinary pair the key order agrees with compare -/
 example : Spec.cmpJV (arr [num (.uint 1), str [0x62]]) (arr [num (.float 0x3ff0000000000000), str [0x61]]) = .gt ∧
